@@ -10,7 +10,13 @@ pub const RULE: &str = "cases = accepted connected graphs (G-phys) with generic 
 
 pub fn gen_case(t: &mut Tape, tier: Tier) -> Option<Phys> {
     let mo = if t.chance(0.4) { 1.0 / 64.0 } else { 0.15 };
-    gen::gen_phys(t, &PhysOpts { max_e: tier.pick(8, 9), max_l: 5, min_omega: mo, dmax: 6, max_ops: 2, profile: gen::CORNERS })
+    let opts = PhysOpts { max_e: tier.pick(8, 9), max_l: 5, min_omega: mo, dmax: 6, max_ops: 2, profile: gen::CORNERS };
+    if t.chance(0.1) {
+        // "all accepted graphs" includes disconnected ones: physical component + massive vacuum component
+        gen::gen_phys_union(t, &opts)
+    } else {
+        gen::gen_phys(t, &opts)
+    }
 }
 
 pub fn assert_c02(c: &Phys, ev: &Eval, ctx: &mut Ctx) -> Result<(), Failure> {
@@ -70,7 +76,7 @@ fn check_d<const D: usize>(c: &Phys, ctx: &mut Ctx) -> Result<(), Failure> {
     assert_c02(c, &ev, ctx)
 }
 pub fn check(c: &Phys, ctx: &mut Ctx) -> Result<(), Failure> {
-    phys::validate(c)?;
+    phys::validate_opt(c, true)?;
     with_d!(c.g.d, check_d(c, ctx))
 }
 pub fn run(tier: Tier, seed: u64) -> i32 {
